@@ -2,6 +2,7 @@ package main
 
 import (
 	"fmt"
+	"go/token"
 	"go/types"
 	"sort"
 	"strings"
@@ -287,6 +288,10 @@ func (m *t1Machine) runX(code []byte, stack, ps, flex []sv, flags map[string]boo
 		case *types.Basic:
 			if t.Info()&types.IsBoolean != 0 {
 				fr.vals[phi] = boolV(flags[phi.Comment])
+			} else if isStepCounter(phi) {
+				// a budget counter (only ever incremented, compared with a constant): the table
+				// describes a step taken within the budget
+				fr.vals[phi] = intV(0)
 			} else {
 				fr.vals[phi] = symV("v:" + phi.Comment)
 			}
@@ -595,4 +600,44 @@ func (m *t1Machine) runFlexEnd(n int, flag string) t1Outcome {
 	code := m.c.constInt("type1", "t1callothersubr")
 	stack := []sv{symV("a0"), symV("a1"), symV("a2"), fl(3), fl(0)}
 	return m.runX([]byte{12, byte(code & 0xff)}, stack, nil, flex, map[string]bool{flag: true})
+}
+
+// isStepCounter: an integer φ whose in-loop edges all add a positive constant to it and which is
+// compared with a constant.
+func isStepCounter(phi *ssa.Phi) bool {
+	if bt, ok := phi.Type().Underlying().(*types.Basic); !ok || bt.Info()&types.IsInteger == 0 {
+		return false
+	}
+	pi := analyzePhi(phi)
+	if pi == nil || len(pi.steps) == 0 || !guarded(phi, pi) {
+		return false
+	}
+	for _, k := range pi.steps {
+		if k <= 0 {
+			return false
+		}
+	}
+	// the bound is a constant
+	check := func(v ssa.Value) bool {
+		for _, r := range *v.Referrers() {
+			if b, ok := r.(*ssa.BinOp); ok {
+				switch b.Op {
+				case token.LSS, token.LEQ, token.GTR, token.GEQ:
+					if _, isC := b.Y.(*ssa.Const); isC && b.X == v {
+						return true
+					}
+				}
+			}
+		}
+		return false
+	}
+	if check(phi) {
+		return true
+	}
+	for _, sv := range pi.stepVals {
+		if check(sv) {
+			return true
+		}
+	}
+	return false
 }
